@@ -548,11 +548,11 @@ func (e *Engine) findIndicesReverseAnchored(haystack []byte) (int, int, bool) {
 		return e.findIndicesNFA(haystack)
 	}
 	atomic.AddUint64(&e.stats.DFASearches, 1)
-	match := e.reverseSearcher.Find(haystack)
-	if match == nil {
-		return -1, -1, false
-	}
-	return match.Start(), match.End(), true
+	// By value, with the reverse DFA cache of the pooled SearchState (zero alloc).
+	state := e.getSearchState()
+	start, end, found := e.reverseSearcher.FindIndicesWithCache(haystack, state.stratRevCache)
+	e.putSearchState(state)
+	return start, end, found
 }
 
 // findIndicesReverseSuffix searches using reverse suffix optimization - zero alloc.
@@ -561,11 +561,11 @@ func (e *Engine) findIndicesReverseSuffix(haystack []byte) (int, int, bool) {
 		return e.findIndicesNFA(haystack)
 	}
 	atomic.AddUint64(&e.stats.DFASearches, 1)
-	match := e.reverseSuffixSearcher.Find(haystack)
-	if match == nil {
-		return -1, -1, false
-	}
-	return match.Start(), match.End(), true
+	// By value, with the DFA caches of the pooled SearchState (zero alloc).
+	state := e.getSearchState()
+	start, end, found := e.reverseSuffixSearcher.FindIndicesAtWithCaches(haystack, 0, state.stratFwdCache, state.stratRevCache)
+	e.putSearchState(state)
+	return start, end, found
 }
 
 // findIndicesReverseSuffixAt searches using reverse suffix optimization from position - zero alloc.
@@ -574,7 +574,10 @@ func (e *Engine) findIndicesReverseSuffixAt(haystack []byte, at int) (int, int, 
 		return e.findIndicesNFAAt(haystack, at)
 	}
 	atomic.AddUint64(&e.stats.DFASearches, 1)
-	return e.reverseSuffixSearcher.FindIndicesAt(haystack, at)
+	state := e.getSearchState()
+	start, end, found := e.reverseSuffixSearcher.FindIndicesAtWithCaches(haystack, at, state.stratFwdCache, state.stratRevCache)
+	e.putSearchState(state)
+	return start, end, found
 }
 
 // findIndicesReverseSuffixSet searches using reverse suffix SET optimization - zero alloc.
@@ -583,11 +586,11 @@ func (e *Engine) findIndicesReverseSuffixSet(haystack []byte) (int, int, bool) {
 		return e.findIndicesNFA(haystack)
 	}
 	atomic.AddUint64(&e.stats.DFASearches, 1)
-	match := e.reverseSuffixSetSearcher.Find(haystack)
-	if match == nil {
-		return -1, -1, false
-	}
-	return match.Start(), match.End(), true
+	// By value, with the DFA caches of the pooled SearchState (zero alloc).
+	state := e.getSearchState()
+	start, end, found := e.reverseSuffixSetSearcher.FindIndicesAtWithCaches(haystack, 0, state.stratFwdCache, state.stratRevCache)
+	e.putSearchState(state)
+	return start, end, found
 }
 
 // findIndicesReverseSuffixSetAt searches using reverse suffix SET optimization from position - zero alloc.
@@ -596,7 +599,10 @@ func (e *Engine) findIndicesReverseSuffixSetAt(haystack []byte, at int) (int, in
 		return e.findIndicesNFAAt(haystack, at)
 	}
 	atomic.AddUint64(&e.stats.DFASearches, 1)
-	return e.reverseSuffixSetSearcher.FindIndicesAt(haystack, at)
+	state := e.getSearchState()
+	start, end, found := e.reverseSuffixSetSearcher.FindIndicesAtWithCaches(haystack, at, state.stratFwdCache, state.stratRevCache)
+	e.putSearchState(state)
+	return start, end, found
 }
 
 // findIndicesReverseInner searches using reverse inner optimization - zero alloc.
@@ -605,11 +611,11 @@ func (e *Engine) findIndicesReverseInner(haystack []byte) (int, int, bool) {
 		return e.findIndicesNFA(haystack)
 	}
 	atomic.AddUint64(&e.stats.DFASearches, 1)
-	match := e.reverseInnerSearcher.Find(haystack)
-	if match == nil {
-		return -1, -1, false
-	}
-	return match.Start(), match.End(), true
+	// By value, with the DFA caches of the pooled SearchState (zero alloc).
+	state := e.getSearchState()
+	start, end, found := e.reverseInnerSearcher.FindIndicesAtWithCaches(haystack, 0, state.stratFwdCache, state.stratRevCache)
+	e.putSearchState(state)
+	return start, end, found
 }
 
 // findIndicesReverseInnerAt searches using reverse inner optimization from position - zero alloc.
@@ -618,7 +624,10 @@ func (e *Engine) findIndicesReverseInnerAt(haystack []byte, at int) (int, int, b
 		return e.findIndicesNFAAt(haystack, at)
 	}
 	atomic.AddUint64(&e.stats.DFASearches, 1)
-	return e.reverseInnerSearcher.FindIndicesAt(haystack, at)
+	state := e.getSearchState()
+	start, end, found := e.reverseInnerSearcher.FindIndicesAtWithCaches(haystack, at, state.stratFwdCache, state.stratRevCache)
+	e.putSearchState(state)
+	return start, end, found
 }
 
 // findIndicesMultilineReverseSuffix searches using multiline suffix optimization - zero alloc.
@@ -627,7 +636,10 @@ func (e *Engine) findIndicesMultilineReverseSuffix(haystack []byte) (int, int, b
 		return e.findIndicesNFA(haystack)
 	}
 	atomic.AddUint64(&e.stats.DFASearches, 1)
-	return e.multilineReverseSuffixSearcher.FindIndicesAt(haystack, 0)
+	state := e.getSearchState()
+	start, end, found := e.multilineReverseSuffixSearcher.FindIndicesAtWithCaches(haystack, 0, state.stratFwdCache)
+	e.putSearchState(state)
+	return start, end, found
 }
 
 // findIndicesAnchoredLiteral uses O(1) specialized matching for ^prefix.*suffix$ patterns.
@@ -654,7 +666,10 @@ func (e *Engine) findIndicesMultilineReverseSuffixAt(haystack []byte, at int) (i
 		return e.findIndicesNFAAt(haystack, at)
 	}
 	atomic.AddUint64(&e.stats.DFASearches, 1)
-	return e.multilineReverseSuffixSearcher.FindIndicesAt(haystack, at)
+	state := e.getSearchState()
+	start, end, found := e.multilineReverseSuffixSearcher.FindIndicesAtWithCaches(haystack, at, state.stratFwdCache)
+	e.putSearchState(state)
+	return start, end, found
 }
 
 // findIndicesBidirectionalDFA uses forward DFA + reverse DFA for exact match bounds.
